@@ -233,6 +233,10 @@ def job_c17(clsname, seed, count, replay_calls=None):
             if c == "gather-and-close" and rng.random() < 0.7:
                 c = "flush"
             calls.append(draw_call(rng, c, table[c]))
+        if "until-closed" in table and rng.random() < 0.5:
+            # a command whose method waits: sent last (it blocks the session until the pool is
+            # closed); if an earlier gather-and-close closed the pool it answers True at once
+            calls.append(draw_call(rng, "until-closed", table["until-closed"]))
     out = core.run_driver(["ctrl", "interp"], "#t\n" + "\n".join(lines) + "\n--\n" + "\n".join(calls) + "\n")
     mo = [ln for ln in out.split("\n") if ln and not ln.startswith("#")]
     if any(ln.startswith("ERROR") for ln in mo):
@@ -305,12 +309,31 @@ def draw_line(rng, table):
     if x < 0.5:      # a command with wrong / missing / extra arguments
         c = rng.choice(cmds)
         return " ".join([c] + [rng.choice(VOCAB_EXTRA) for _ in range(rng.randint(0, 3))])
-    if x < 0.6:      # help requests
+    if x < 0.58:     # a well-formed command line in which one value cannot be converted
+        bad_lit = ["[1,", "[1,2", "(01,)", "{'x':1", "'abc", "", "1 +", "f(1)", "abc", "[1,2]]", "{1:}", "@"]
+        bad_path = ["no.such.path", "ctrlrun.nothing", "ctrlrun", ".", "os.path.", "1.2", ""]
+        shape = rng.choice([
+            ["apply", "ctrlrun.work", "-a", rng.choice(bad_lit)],
+            ["apply", "ctrlrun.work", "-k", rng.choice(bad_lit)],
+            ["apply", "ctrlrun.work", "-n", rng.choice(["x", "1.5", "", "--"])],
+            ["apply", rng.choice(bad_path)],
+            ["map", "ctrlrun.work", rng.choice(bad_lit)],
+            ["starmap", "ctrlrun.work", rng.choice(bad_lit), "-n", rng.choice(["2", "x"])],
+            ["doublestarmap", "ctrlrun.work", rng.choice(bad_lit)],
+            ["map", rng.choice(bad_path), "[1,2]"],
+            ["apply", "ctrlrun.work", "--end-callback", rng.choice(bad_path)],
+            ["cancel", rng.choice(["x", "1.0", "[1]", ""])],
+            ["pool-size", rng.choice(["x", "1.5", "", "None"])],
+            ["stop", rng.choice(["x", "2.5", ""])],
+            ["start", rng.choice(["x", "1e3", ""])],
+        ])
+        return " ".join(shape)
+    if x < 0.66:     # help requests
         return rng.choice(cmds + [""]) + " " + rng.choice(["-h", "--help"])
-    if x < 0.7:      # arbitrary printable text
+    if x < 0.74:     # arbitrary printable text
         n = rng.randint(1, 40)
         return "".join(rng.choice("abcXYZ019 -_=.,;:'\"()[]{}<>!?@#$%^&*+/\\|~`") for _ in range(n)).strip() or "x"
-    if x < 0.8:      # unknown command
+    if x < 0.82:     # unknown command
         return rng.choice(["nope", "Cancel", "pool_size", "poolsize 3", "exit", "quit", "help"])
     # harmless valid commands
     return rng.choice(["num-running", "is-locked", "pool-size", "num-ended", "lock", "unlock", "is-full",
